@@ -193,17 +193,30 @@ async def collect_schedules(run_once, cap, rng, sample_tail=0):
     frontier = [[]]
     runs = []
     exhaustive = True
+    truncated = False
     while frontier:
         if len(runs) >= cap:
             exhaustive = False
             break
-        prefix = frontier.pop()
+        entry = frontier.pop()
+        # entries are lazy: (choices of the run they branch from, depth, alternative); the prefix is built when popped
+        prefix = entry if isinstance(entry, list) else [c[0] for c in entry[0][:entry[1]]] + [entry[2]]
         outcome, sched = await run_once(prefix_chooser(prefix))
         runs.append((prefix, outcome, sched))
         ch = sched.choices
-        for d in range(len(prefix), len(ch)):
-            for alt in range(1, ch[d][1]):
-                frontier.append([c[0] for c in ch[:d]] + [alt])
+        # depth-first: the deepest alternatives are explored first, so only the last few can ever be reached before the cap;
+        # a run with thousands of choice points must not materialise millions of branches
+        budget = max(64, 4 * (cap - len(runs)))
+        new = []
+        for d in range(len(ch) - 1, len(prefix) - 1, -1):
+            for alt in range(ch[d][1] - 1, 0, -1):
+                new.append((ch, d, alt))
+            if len(new) >= budget:
+                if d > len(prefix):
+                    truncated = True
+                break
+        frontier.extend(reversed(new))
+    exhaustive = exhaustive and not truncated
     if not exhaustive:
         # adversarial + random policies beyond the cap
         for tail in ("last",) + ("random",) * sample_tail:
